@@ -164,14 +164,41 @@ Fixpoint first_fail (l : list ostat) : option err :=
   | FViolated :: _ => Some Violated
   | FOther :: _ => Some Other
   end.
-Definition verdict (p : pt) (rho : env) (drop : bool) : result bool :=
-  match first_fail (map ob_stat (obs p rho drop)) with
+Definition verd {A} (l : list ob) (k : result A) : result A :=
+  match first_fail (map ob_stat l) with
   | Some e => Err e
-  | None => Ok (plays p rho drop)
+  | None => k
   end.
+Definition verdict (p : pt) (rho : env) (drop : bool) : result bool :=
+  verd (obs p rho drop) (Ok (plays p rho drop)).
 
 (* how the operational result may differ from the ideal verdict: it may report a missing parameter where the ideal
    instantiation would not have needed it (keys()/as_dict() evaluate eagerly), and it may report another error
    where a needed value is missing (FunctionPT: ValueError for a free variable) *)
-Definition refines (a b : result bool) : Prop :=
+Definition refines {A} (a b : result A) : Prop :=
   a = b \/ a = Err Missing \/ (b = Err Missing /\ a = Err Other).
+
+(* structural well-formedness established by the constructors: a mapping has an entry for every parameter of the
+   template it wraps (MappingPT.__init__ fills in the identity) ... *)
+Fixpoint atomic (p : pt) : bool :=
+  match p with
+  | Atom _ _ _ _ _ => true
+  | AMC subs _ _ => forallb atomic subs
+  | Map inner _ _ => atomic inner
+  | _ => false
+  end.
+
+(* ... and the parts of an AtomicMultiChannelPT are atomic (its constructor raises TypeError otherwise; a
+   ParallelChannelPT part is excluded: the real class has no get_measurement_windows) *)
+Fixpoint wf (p : pt) : Prop :=
+  match p with
+  | Atom _ _ _ _ _ => True
+  | AMC subs _ _ =>
+      forallb atomic subs = true /\
+      (fix all (l : list pt) : Prop := match l with [] => True | q :: r => wf q /\ all r end) subs
+  | Seq subs _ _ => (fix all (l : list pt) : Prop := match l with [] => True | q :: r => wf q /\ all r end) subs
+  | Par inner _ => wf inner
+  | Rep body _ _ _ => wf body
+  | For body _ _ _ _ _ _ => wf body
+  | Map inner m _ => subset (pnames inner) (map fst m) = true /\ wf inner
+  end.
